@@ -15,8 +15,17 @@ from mc.run import Hang
 ID = "C42"
 LEVEL = "exploration"
 WATCHDOG_S = 60.0
-FRAMES = ("num", "str", "bool", "dt", "cat", "nullable")
+FRAMES = ("num", "str", "bool", "dt", "cat", "nullable", "sorted")
 NROWS = 6
+
+
+def base_frame(fname):
+    """the 6 shared base frames + 'sorted' = the num frame with its rows ordered by column a, so that a is PRESORTED across any
+    consecutive partitioning (set_index / sort_values fast paths)"""
+    frames = dfh.base_frames(DATA_SEED, NROWS)
+    if fname == "sorted":
+        return frames["num"].sort_values("a").reset_index(drop=True)
+    return frames[fname]
 ASSUMPTIONS = [
     "sync scheduler; pyarrow stand-in (string columns are pandas 'str'/object backed, dataframe.convert-string=False)",
     "programs are the row-wise alphabet of C36 plus reductions, groupby, joins/concat, sort/shuffle/dedup and window operations (the families of C37-C40, C46); "
@@ -45,9 +54,10 @@ DATA_SEED = 0  # see ASSUMPTIONS: the data do not depend on VERIF_SEED
 
 def RULE(tier):
     common = (
-        "6 base frames (int/float+NaN/bool/str/datetime/categorical/nullable columns, 6 rows).  Union alphabet = row-wise alphabet of C36 (~80 frame steps, 40-60 per series "
+        "7 base frames (int/float+NaN/bool/str/datetime/categorical/nullable columns, and the num frame with a presorted column; 6 rows).  Union alphabet = row-wise alphabet of C36 (~80 frame steps, 40-60 per series "
         "kind) + extended alphabet (~190 frame steps: every reduction x axis/numeric_only, describe/quantile/mode/cov/corr, nlargest, sort_values/set_index/reset_index/"
-        "drop_duplicates/shuffle/repartition, ~75 groupby forms, 20 merge/join/concat/merge_asof forms, ~30 rolling/cumulative/shift/diff/fill forms, loc/iloc/head/tail/melt/"
+        "drop_duplicates/shuffle/repartition, set_index with every drop/append combination, ~75 groupby forms, 27 merge/join/concat/merge_asof forms incl. concat of operands whose shared columns have "
+        "the same dtype kind but another width (int64/int32/int8, float64/float32, Int64/Int32), ~30 rolling/cumulative/shift/diff/fill forms, loc/iloc/head/tail/melt/"
         "pivot_table/query/eval; ~70 series steps).  For every program: the computed object AND every partition computed separately (.partitions[i]) vs ._meta.  "
         "non-trivial = >= 2 input partitions.  "
     )
@@ -64,6 +74,8 @@ def shards(tier):
     for fam in ("M1", "M2"):
         n = NSH[fam] * (4 if tier == "thorough" and fam == "M2" else 1)
         for f in FRAMES:
+            if fam == "M2" and tier == "quick" and f == "sorted":
+                continue  # quick: the presorted frame meets every 1-step program; 2-step programs on it are in the thorough tier
             for part in range(n):
                 out.append((fam, f, part, n))
     return out
@@ -71,7 +83,7 @@ def shards(tier):
 
 def cases_of(shard, tier, seed, counters=None):
     fam, fname, part, n = shard
-    pdf0 = dfh.base_frames(DATA_SEED, NROWS)[fname]
+    pdf0 = base_frame(fname)
     pick = lambda i: i % n == part  # noqa: E731
     if fam == "M1":
         levels, configs = ("full",), (CONFIGS[:3] if tier == "quick" else CONFIGS)
@@ -161,7 +173,7 @@ QUIET = ("ok", "dask_raises", "not_lazy", "out_of_scope", "unsupported_api")
 def evaluate(case, pxs, seed):
     """-> (status, detail, pxs, info)"""
     fam, fname, kind, parts, divmode, prog = case[:6]
-    root = dfh.with_index(dfh.base_frames(DATA_SEED, NROWS)[fname], kind)
+    root = dfh.with_index(base_frame(fname), kind)
     if pxs is None:
         with np.errstate(all="ignore"):
             pxs = P.run_pandas(prog, root, None)
